@@ -20,7 +20,7 @@ Proof. reflexivity. Qed.
    letter case *)
 Theorem get_set_same path : forall f v f' path',
   setitem f path v = Some f' -> map ascii_upper path' = map ascii_upper path ->
-  getitem f' path' = Some (FLeaf v).
+  getitem f' path' = Some (val_of v).
 Proof.
   induction path as [|k rest IH]; intros f v f' path' Hs Hp; [discriminate|].
   destruct path' as [|k' rest']; [discriminate|]. cbn [map] in Hp. inversion Hp as [[Hk Hr]].
